@@ -1361,6 +1361,24 @@ pub fn plan(prop: &str, tier: Tier, seeds: &[u64]) -> Vec<Sweep> {
             scale(&mut sweeps, o);
             bulk(&mut sweeps, o);
             mega(&mut sweeps, o);
+            // several keys in ONE merge output, one or two of them with an odd value (empty, CR LF NUL,
+            // a reserved literal) in every position of the output: a hint record that is dropped or
+            // misread in the middle of a hint file (one at its end only makes the file fall short,
+            // and a hint file that falls short is not used)
+            {
+                let ks = [0u8, 2, 3, 4];
+                let mut words = vec![];
+                for odd in [2u8, 3, 7] {
+                    for i in 0..ks.len() {
+                        for j in i..ks.len() {
+                            let mut w: Vec<Op> = ks.iter().enumerate().map(|(n, &k)| Op::Set(k, if n == i || n == j { odd } else { 0 })).collect();
+                            w.push(Op::Merge);
+                            words.push(w);
+                        }
+                    }
+                }
+                sweeps.push(Sweep { name: "odd-values-inside-a-merge-output".into(), alphabet: vec![], depth: 0, cfgs: core_grid(seeds, &[Thr::All], &[60, MFS_BIG]), oracles: o, keys: wide_keys.clone(), trailing_reopens: 0, preload: vec![], words });
+            }
             sweeps.push(Sweep { name: "clock".into(), alphabet: full.clone(), depth: tier.pick(3, 4), cfgs: with_clocks(core_grid(&seeds[..1], &[Thr::All, Thr::Dead, Thr::Size27], &[0, MFS_BIG])), oracles: o, keys: main_keys.clone(), trailing_reopens: 0, preload: vec![], words: vec![] });
             // key and value SHAPES (empty, binary, 300-byte keys; empty, CR/LF/NUL, 9 000- and 70 000-byte values) through a merge
             sweeps.push(Sweep { name: "wide".into(), alphabet: wide_ops(true, false), depth: tier.pick(2, 3), cfgs: core_grid(&seeds[..1], &[Thr::All, Thr::Dead], &[0, MFS_BIG]), oracles: o, keys: wide_keys.clone(), trailing_reopens: 0, preload: vec![], words: vec![] });
